@@ -127,6 +127,13 @@ def _sumchains():
         out.append({"program": two + f"pay(D,X) :- dept(D), X = #sum {{ {e1} ; {e2} }}.", "tag": "y-sumchains-two-elements", "trait": "sum_chains"})
         out.append({"program": two + f"pay(D,X) :- dept(D), X = #sum {{ {e2} ; {e1} }}.", "tag": "y-sumchains-two-elements-rev", "trait": "sum_chains"})
         out.append({"program": two + f"pay(X) :- X = #sum {{ {e1.replace(', works(P,D)', '')} ; {e2.replace(', works(P,D)', '')} }}.", "tag": "y-sumchains-two-elements-flat", "trait": "sum_chains"})
+    # tuple terms that hide the group variable inside arithmetic, weights that are fixed from outside
+    amo = "{ p(G,V) : d(G,V) } 1 :- g(G).\n"
+    for t in ("G/2", "G*0", "|G|", "G+1", "f(G)", "f(G/2)", "-G"):
+        out.append({"program": amo + f"t(X) :- X = #sum {{ V,{t} : p(G,V) }}.", "tag": f"y-sumchains-tuple-term:{t}", "trait": "sum_chains"})
+        out.append({"program": amo + f":~ p(G,V). [V@1,{t}]", "tag": f"y-sumchains-tuple-term-objective:{t}", "trait": "sum_chains", "out": [["p", 2]]})
+    for rest in ("q(V)", "q(V), V > 2", "q(G)", "q(V), not s(V)", "r(V,X)"):
+        out.append({"program": amo + f"t(X) :- X = #sum {{ V,G : p(G,V) }}, {rest}.", "tag": f"y-sumchains-weight-outside:{rest}", "trait": "sum_chains"})
     # an anonymous variable at a group position of an atom inside a body aggregate
     out.append({"program": "{ shift(D,L,K) : pshift(D,L) } 1 :- day(D), kind(D,K).\ntot(X) :- X = #sum { L,D : shift(D,L,_) }.", "tag": "y-sumchains-anon-third", "trait": "sum_chains"})
     out.append({"program": "{ shift(D,L,K) : pshift(D,L) } 1 :- day(D), kind(D,K).\ntot(D,X) :- day(D), X = #sum { L : shift(D,L,_) }.", "tag": "y-sumchains-anon-third", "trait": "sum_chains"})
@@ -170,6 +177,9 @@ def _inline():
     for sign in ("not not ", "not ", ""):
         out.append({"program": f"on(X) :- auto(X), {sign}h(N), N = #count {{ Y : need(Y) }}.\nh(N) :- N = #count {{ X : on(X) }}.", "tag": f"y-inline-signed-use-recursive:{sign.strip() or 'pos'}", "trait": "inline", "in": [["auto", 1], ["need", 1]], "out": [["on", 1]]})
         out.append({"program": f"{{ on(X) }} :- auto(X).\nok :- {sign}h(N), N = #count {{ Y : need(Y) }}.\nh(N) :- N = #count {{ X : on(X) }}.", "tag": f"y-inline-signed-use:{sign.strip() or 'pos'}", "trait": "inline", "in": [["auto", 1], ["need", 1]], "out": [["on", 1], ["ok", 0]]})
+    # several objectives whose weights are aggregates: every unfolded one needs its own padding
+    for second in (":~ d(Y), C = #sum { W : q(Y,W) }. [C@1,Y]", ":~ C = #sum { W,Y : q(Y,W) }. [C@1]", ":~ d(Y), C = #count { W : q(Y,W) }. [C@1,Y]", ":~ C = #sum { W,Y : q(Y,W) }. [C@2]"):
+        out.append({"program": "{ p(X,W) } :- pp(X,W).\n{ q(X,W) } :- qq(X,W).\n:~ C = #sum { W,X : p(X,W) }. [C@1]\n" + second, "tag": "y-inline-two-aggregate-objectives", "trait": "inline", "in": [["pp", 2], ["qq", 2], ["d", 1]], "out": [["p", 2], ["q", 2]]})
     # two objectives with one tuple, one of them with an aggregate as weight
     for w2 in (":~ fee(C). [C@1]", ":~ fee(D). [D@1]", ":~ fee(C). [C@2]"):
         out.append({"program": "{ take(I,W) } :- item(I,W).\n:~ C = #sum { W,I : take(I,W) }. [C@1]\n" + w2, "tag": "y-inline-objective-same-tuple", "trait": "inline", "in": [["item", 2], ["fee", 1]], "out": [["take", 2]]})
